@@ -114,7 +114,49 @@ def resolvable(draw, schema_js, max_rows=4, hard=True, cr=False, max_links=12):
             links.append([i, s, t])
     rows = list(draw(st.permutations(rows))) if rows else rows
     # links refer to per-class indices in the final statement order
-    return {'rows': rows, 'links': sanitize_links(schema_js, rows, links)}
+    links = sanitize_links(schema_js, rows, links)
+    links, why = close_links(schema_js, rows, links)
+    out = {'rows': rows, 'links': links}
+    if why:
+        out['unresolvable'] = why
+    return out
+
+
+def close_links(schema_js, rows, links):
+    """Types without a null (INTEGER, REAL, BOOLEAN) write an unlinked referential as 0 / 0.0 / false, which
+    may equal an existing key: such pairs are linked by any loader.  Add them to the intended links until
+    nothing changes; report when that breaks multiplicity (the population then cannot be expressed by keys)."""
+    sc = Schema(schema_js)
+    links = [list(l) for l in links]
+    for _ in range(20):
+        sh, recs = shadow_from_links(schema_js, rows, links)
+        ser = {}
+        for c in sc.classes:
+            out = []
+            for r in recs.get(c['name'].upper(), []):
+                row = {}
+                for n, t in c['attrs']:
+                    v = sh.attr(r, n)
+                    row[n] = gen_schema.default_of(t) if v is None else v
+                out.append(row)
+            ser[c['name'].upper()] = out
+        want = key_join(sc, ser)
+        new = [[i, s, t] for i, pairs in enumerate(want) for (s, t) in pairs if [i, s, t] not in links]
+        if not new:
+            have = set((i, s, t) for i, s, t in links)
+            joined = set((i, s, t) for i, pairs in enumerate(want) for (s, t) in pairs)
+            if have - joined:
+                return links, 'intended link not carried by key values'
+            return links, None
+        links.extend(new)
+        for i, a in enumerate(sc.assocs):
+            srcs = [s for (j, s, t) in links if j == i]
+            tgts = [t for (j, s, t) in links if j == i]
+            if len(set(srcs)) != len(srcs):
+                return links, 'null-less key type makes an unlinked row match'
+            if not a['src_many'] and len(set(tgts)) != len(tgts):
+                return links, 'null-less key type makes an unlinked row match'
+    return links, 'link closure did not settle'
 
 
 def shadow_from_links(schema_js, rows, links):
@@ -159,4 +201,7 @@ def nonnull_value(ty, hard=True):
         return gen_schema.ids(nonzero=True)
     if ty == 'STRING':
         return gen_schema.strings(hard).filter(lambda s: s != '')
-    return gen_schema.value_of(ty, hard)
+    # an unlinked referential attribute is written as the null of its type (0 for INTEGER): an identifying
+    # value equal to that null would make the reloaded row link to it, so such keys are outside the
+    # resolvable domain
+    return gen_schema.value_of(ty, hard).filter(lambda v: v != gen_schema.default_of(ty))
